@@ -5,6 +5,7 @@ package hgen
 
 import (
 	"fmt"
+	"time"
 
 	"github.com/jamespfennell/gtfs"
 	"github.com/jamespfennell/gtfs/extensions/nycttrips"
@@ -41,6 +42,45 @@ type Feed struct {
 
 type History struct {
 	Feeds []Feed
+	// ZoneMode selects the Timezone option each feed is parsed with. The journal identifies a trip by its start
+	// INSTANT, so none of these may change the journal:
+	//   0: no option (UTC); 1: one America/New_York location shared by all feeds; 2: America/New_York loaded afresh
+	//   for every feed (equal instants, distinct *time.Location values); 3: a rotation of zones at offset 0 (nil, time.UTC,
+	//   a fixed zone, Etc/UTC, Africa/Abidjan), whose local midnights are one and the same instant.
+	ZoneMode int
+}
+
+// ZoneModes is the number of zone modes.
+const ZoneModes = 4
+
+func (h *History) zoneFor(i int, shared *time.Location) *time.Location {
+	load := func(name string) *time.Location {
+		l, err := time.LoadLocation(name)
+		if err != nil {
+			return time.UTC
+		}
+		return l
+	}
+	switch h.ZoneMode {
+	case 1:
+		return shared
+	case 2:
+		return load("America/New_York")
+	case 3:
+		switch i % 5 {
+		case 0:
+			return nil
+		case 1:
+			return time.UTC
+		case 2:
+			return time.FixedZone("Z0", 0)
+		case 3:
+			return load("Etc/UTC")
+		default:
+			return load("Africa/Abidjan")
+		}
+	}
+	return nil
 }
 
 // Message renders a feed.
@@ -80,8 +120,10 @@ func (f *Feed) Message() *gtfsrt.FeedMessage {
 // Parse parses every feed of the history with the NYCT trips extension (no stale filtering).
 func (h *History) Parse() ([]*gtfs.Realtime, error) {
 	var out []*gtfs.Realtime
+	shared, _ := time.LoadLocation("America/New_York")
 	for i := range h.Feeds {
 		rt, err := gtfs.ParseRealtime(rgen.Marshal(h.Feeds[i].Message()), &gtfs.ParseRealtimeOptions{
+			Timezone:  h.zoneFor(i, shared),
 			Extension: nycttrips.Extension(nycttrips.ExtensionOpts{FilterStaleUnassignedTrips: false, PreserveMTrainPlatformsInBushwick: true}),
 		})
 		if err != nil {
